@@ -273,6 +273,58 @@ gspec.contract(
                                                      s.self.control_geos))))},
     ensures=[])
 
+# trivial getters are inlined at call sites (return self._y / self._x)
+dspec.inline.update({'TBRMMDiagnostics.y', 'TBRMMDiagnostics.x'})
+
+
+def comparable(o):
+  """A score object whose score tuple can be produced without raising."""
+  d = o.diag
+  return Or(Not(IsNone(o._score)), And(
+      Not(IsNone(d._x)), Not(IsNone(d._y)),
+      LEN(arr(d._y)) - N(d._par.n_test) >= 3))
+
+
+def SV(o, old=False):
+  """Score tuple of a score object: the cached one, else that of its series."""
+  sc = unwrap(o._score)
+  d = o.diag
+  out = []
+  for k in range(6):
+    out.append(z3.If(sc.none, SCORE(arr(d._x), arr(d._y), d._par, k),
+                     N(sc.val.items[k])))
+  return out
+
+
+def lex_lt(a, b):
+  res = z3.BoolVal(False)
+  for k in range(5, -1, -1):
+    x, y = a[k], b[k]
+    if x.sort() != y.sort():
+      x = z3.ToReal(x) if x.sort() == I else x
+      y = z3.ToReal(y) if y.sort() == I else y
+    res = z3.Or(x < y, z3.And(x == y, res))
+  return res
+
+
+sspec.contract(
+    'TBRMMScore.__lt__',
+    params={'other': TObj('TBRMMScore')}, result=TBool(),
+    modifies=['self._score', 'self.diag._corr', 'self.diag._required_impact',
+              'other._score', 'other.diag._corr',
+              'other.diag._required_impact'],
+    props=('C03', 'C14', 'C09'),
+    requires=[('both scores can be produced',
+               lambda s: And(comparable(s.self), comparable(s.other)))],
+    ensures=[
+        ('lexicographic order of the score tuples',
+         lambda s: Iff(s.result, lex_lt(SV(s.old.self), SV(s.old.other)))),
+        ('scores are now cached and unchanged in value', lambda s: And(
+            Not(IsNone(s.self._score)), Not(IsNone(s.other._score)),
+            z3.And([a == b for a, b in zip(SV(s.self), SV(s.old.self))]),
+            z3.And([a == b for a, b in zip(SV(s.other), SV(s.old.other))]))),
+    ])
+
 FUNCTIONS = []
 LEMMAS = []
 # contracts used at call sites whose bodies are verified elsewhere / later
